@@ -16,6 +16,10 @@ type Explorer struct {
 	MaxPoints  int
 	Capped     bool
 	MaxExec    int64 // 0 = unlimited
+	// sharding of the search tree over processes: the first deviation of an execution is taken at
+	// a choice point whose index is congruent to ShardK modulo ShardN (the default execution
+	// belongs to shard 0).
+	ShardK, ShardN int
 }
 
 func altCost(p verifrt.Point) int {
@@ -59,7 +63,11 @@ func (e *Explorer) Explore(run func(), visit func(trace []verifrt.Point)) {
 		if len(tr) < len(prefix) {
 			die("replay ended before its prefix was consumed (%d < %d)", len(tr), len(prefix))
 		}
-		visit(tr)
+		if !(e.ShardN > 1 && len(prefix) == 0 && e.ShardK != 0) {
+			visit(tr)
+		} else {
+			e.Executions--
+		}
 		cost := 0
 		costs := make([]int, len(tr))
 		for i, p := range tr {
@@ -70,6 +78,9 @@ func (e *Explorer) Explore(run func(), visit func(trace []verifrt.Point)) {
 		}
 		for i := len(prefix); i < len(tr); i++ {
 			if costs[i]+altCost(tr[i]) > e.Bound {
+				continue
+			}
+			if e.ShardN > 1 && len(prefix) == 0 && i%e.ShardN != e.ShardK {
 				continue
 			}
 			for alt := 1; alt < tr[i].N; alt++ {
